@@ -24,7 +24,10 @@ THEOREMS = [_T + n for n in [
     "iouCR_range", "iouCR_symm", "iouCR_self", "iouCR_zero",
     "C06_range_rounded", "C06_symm_rounded", "C06_self_one_rounded", "C06_disjoint_zero_rounded",
     "C06_roundings_exist", "C06_time_only_closed_form", "C06_shift_invariant_strong",
-    "C06_boundsExact_satisfiable"]]
+    "C06_boundsExact_satisfiable",
+    # follow-up 2: the buffered time extent from the coordinates, the band of the time IoU, the pipeline corollary
+    "timeIoU_band", "C06_extent_band", "C06_extent_band_exact", "C06_extent_exact", "C06_buffered_time_band",
+    "C06_buffered_time_exact", "C06_pipeline_extent_within", "C06_pipeline_extent_ideal", "C06_pipeline_affinity_band"]]
 LEVEL_TEXT = ("Lean theorems over the model of compute_affinity (everything GEOS computes is a parameter): the IoU and "
               "time-IoU formulas (range, symmetry, self, zero, shift), rectangle closed forms, and for the dispatcher "
               "range under `Sane`, symmetry / self = 1 / time-disjoint = 0 under `Sound`, the box closed form under "
@@ -36,9 +39,20 @@ LEVEL_TEXT = ("Lean theorems over the model of compute_affinity (everything GEOS
               "all 81 ordered type pairs, for every rounding, every GEOS parameter, all coordinates and buffers - and proved "
               "equal to the model; so are both formulas and the closed-form buffers; the type tables are re-extracted; all 81 "
               "type pairs run differentially (bit for bit against the binary64 evaluation of the model off the grid); range / "
-              "symmetry / self / disjoint / shift are judged on every real output.")
+              "symmetry / self / disjoint / shift are judged on every real output.  The buffered time extent of a point / "
+              "line type is pinned from its coordinates, not from the library's buffer: the time-only affinity lies in an "
+              "explicit band around the IoU of the ideal extents [max(s - tb, 0), e + tb] whenever the reported extent is "
+              "within [rho, kappa] buffers of the raw bounds, the band is that IoU itself for rho = kappa = 1, and the "
+              "model of buffer_shapely_geometry (C11) under its GEOS contracts meets the extent condition; the band is "
+              "evaluated on every time-branch pair with a buffered side.")
 LEVEL_NOTE = ("Unmodelled: GEOS overlay, buffer and area in binary64 (parameters of the model; `Sane` and `BoundsExact` checked "
-              "exactly and `Sound` up to 2^-40 on every measured value).  That binary64 round-to-nearest obeys `IsRounding` "
+              "exactly and `Sound` up to 2^-40 on every measured value).  GEOS's buffer is polygonal: the band of the time-only "
+              "affinity uses rho = 1 for points (circle vertices on the axes) and rho = 0.9951 for line ends (round caps, "
+              "known finding C11-round-caps), kappa = 1 except kappa = 5.2 (mitre limit) for lines not monotone in time; "
+              "the hypotheses `CoversDisc rho` / `ReachAtMost kappa` of the pipeline theorem are monitored at the level of "
+              "bounds and area of every buffered shape (both branches), not proved of GEOS.  In the area branch the value "
+              "for a buffered point / line type is not pinned in closed form: there the buffered shape (bounds, area) and "
+              "the converted polygons (`AreaExact`: shoelace area) are checked as contracts.  That binary64 round-to-nearest obeys `IsRounding` "
               "(monotone, exact on 0 and 1, idempotent, exact doubling) is assumed, not proved; the driver's executable "
               "`rnd64` is compared with Python's correctly rounded float(Fraction) on every run.  "
               "Known findings: argument-order dependence and self-affinity just below 1, both <= 2^-40, in the area branch "
@@ -48,11 +62,18 @@ TECHNIQUE = ("Lean 4 proof over model with GEOS as a parameter under explicit co
              "symbolic-trace equality (whole function, all 81 type pairs, rounding-aware) and table obligations regenerated "
              "from source; differential correspondence over all 81 type pairs, bit-exact against a binary64 evaluation of "
              "the model; property monitor on real outputs")
-RULE = ("all 81 ordered type pairs x buffers on dyadic grids and with arbitrary binary64 coordinates, self pairs (aliased and "
+RULE = ("all 81 ordered type pairs x buffers on dyadic grids (time buffers from 1/8 s to 4 s) and with arbitrary binary64 "
+        "coordinates, self pairs (aliased and "
         "not), touching / nested / zero-extent / tiny-overlap / full-band placements, exhaustive small interval / box grids, "
-        "shifted pairs; non-trivial = the implementation returned a number and at least one of the two orders is positive or "
+        "shifted pairs (time buffers up to 4 s, events up to 1000 s, offsets up to 1000 s); non-trivial = the implementation returned a number and at least one of the two orders is positive or "
         "the pair is disjoint in time; distinct = distinct (operation, input)")
-TRUSTED = ["shapely/GEOS area, intersection, buffer, bounds (measured per case; contracts Sane and BoundsExact exactly, Sound up to 2^-40)",
+TRUSTED = ["shapely/GEOS area, intersection, buffer, bounds (measured per case; contracts Sane and BoundsExact exactly, Sound up to 2^-40; "
+           "the buffered shapes' time / frequency extents and areas against the raw coordinates within [rho, kappa] buffers; "
+           "AreaExact: area of converted polygons = shoelace area within 2^-40)",
+           "GEOS's buffer of a scaled point / line geometry covers the disc of radius rho around every vertex and stays within "
+           "kappa of the input (rho = 1 points, 0.9951 lines; kappa = 1, or 5.2 where a line is not monotone along the axis): "
+           "hypotheses of C06_pipeline_extent_within, monitored on bounds and area, not proved",
+           "the rational enclosure 3.1415 < pi < 3.1416 used by the area contract of buffered shapes",
            "symbolic tracer stubs: geometries with .type/.coordinates and the Lean term they stand for, shapely stand-ins whose "
            "area / intersection area / bounds are atoms `G.area x`, `G.inter x y`, `G.st x`, `G.en x` of the model's parameter "
            "(bounds of a TimeStamp / TimeInterval / BoundingBox: the coordinates, contract BoundsExact), data.TimeInterval "
@@ -64,6 +85,17 @@ ASSUMPTIONS = ["geometries are valid and polygonal ones non-self-intersecting (g
                "binary64 round-to-nearest-even obeys `IsRounding` on the magnitudes that occur (no overflow)",
                "GEOS satisfies `Sound` exactly only in exact arithmetic; in binary64 it does up to a relative 2^-40 (monitored)"]
 NOT_COMPARED = ["negative buffers (outside the property's quantifier; modelled and tied symbolically, not run differentially)",
+                "the extent band / buffered-shape contracts are not evaluated in the regimes of the C11 known findings: a zero time "
+                "or frequency buffer (C11-zero-buffer-factor; outside the quantifier for point / line types), a line with an exact "
+                "reversal (C11-line-reversal; not simple), a buffer >= 1e4 times the extent of a line part on that axis "
+                "(C11-huge-buffer-ratio), scaled coordinates >= 1e9; the tallies `time band: not evaluated: ...` count them",
+                "lines that are not monotone in time: the upper side of the buffered extent is only bounded by the mitre limit "
+                "(kappa = 5.2 buffers), so the band of the time-only affinity is wide there",
+                "the area-branch value for a buffered point / line type against a polygonal shape has no closed form: only the "
+                "buffered shape's bounds and area, `Sane` / `Sound`, and the independent clauses (range, symmetry, self, outer "
+                "extents disjoint in time -> 0, shift) are judged",
+                "shift invariance of pairs that go through GEOS is compared with a tolerance of 2^-37 relative to the magnitude of "
+                "the time coordinates GEOS computes with (its overlay noise at sharp mitre joins grows with the coordinates)",
                 "GEOS pairs on the grid are compared with tolerance 2^-40; off the grid bit for bit given the measured GEOS values",
                 "error messages"]
 
@@ -88,6 +120,158 @@ def _model(op, args):
 
 def _f(s):
     return float(frac(s))
+
+
+# ---------------------------------------------------------------- follow-up 2: the buffered extent from the coordinates
+GEOS_BUFFERED = ("Point", "LineString", "MultiPoint", "MultiLineString")
+# contracts of the pipeline theorems (C06_pipeline_extent_within), per type.  A point's circle has vertices on the
+# axes: exact up to rounding.  A line ends in round caps (32-gons inscribed in the unit circle, not aligned with the
+# axes after the anisotropic scaling): each end reaches at least cos(pi/32) = 0.99518... buffers (known finding
+# C11-round-caps), less a margin for GEOS's offset-curve noise.  Upwards: one buffer, except at a mitre join of a line
+# that is not monotone along that axis, which reaches up to the mitre limit (5; the corner of a limited mitre 5.1)
+RHO_POINT = Fraction(1)
+RHO_LINE = Fraction(9951, 10000)
+KAPPA_ONE = Fraction(1)
+KAPPA_MITRE = Fraction(26, 5)
+REGULAR_RATIO = Fraction(10 ** 4)       # C11's regular regime: buffer / extent below 1e4 (C11-huge-buffer-ratio: >= 1e5)
+REGULAR_MAGNITUDE = Fraction(10 ** 9)   # ... and scaled coordinates below 1e9
+
+
+def _parts(gj):
+    """the vertex lists of a point / line type"""
+    ty, c = gj["type"], gj["coordinates"]
+    if ty == "Point":
+        return [[c]]
+    if ty in ("LineString", "MultiPoint"):
+        return [c] if ty == "LineString" else [[p] for p in c]
+    if ty == "MultiLineString":
+        return list(c)
+    return []
+
+
+def _monotone(gj, axis):
+    """every part is weakly monotone along the axis (0 = time, 1 = frequency): no mitre join sticks out there"""
+    for part in _parts(gj):
+        xs = [frac(p[axis]) for p in part]
+        up = all(a <= b for a, b in zip(xs, xs[1:]))
+        down = all(a >= b for a, b in zip(xs, xs[1:]))
+        if not (up or down):
+            return False
+    return True
+
+
+def _has_reversal(gj):
+    """a vertex at which a line turns back on itself exactly (known finding C11-line-reversal)"""
+    for part in _parts(gj):
+        pts = [(frac(p[0]), frac(p[1])) for p in part]
+        pts = [q for i, q in enumerate(pts) if i == 0 or q != pts[i - 1]]
+        for a, b, c in zip(pts, pts[1:], pts[2:]):
+            u, v = (b[0] - a[0], b[1] - a[1]), (c[0] - b[0], c[1] - b[1])
+            if u[0] * v[1] - u[1] * v[0] == 0 and u[0] * v[0] + u[1] * v[1] < 0:
+                return True
+    return False
+
+
+def _buffer_regime(gj, tb, fb):
+    """(rho, kappa_time, kappa_freq) for the buffer of a point / line geometry, or the name of the class of the
+    C11 known findings it falls in (then the extent contract is not evaluated; see NOT_COMPARED)"""
+    tb, fb = frac(tb), frac(fb)
+    if gj["type"] not in GEOS_BUFFERED:
+        return "not-geos-buffered"
+    if tb <= 0 or fb <= 0:
+        return "zero-buffer (C11-zero-buffer-factor; outside the quantifier)"
+    line = gj["type"] in ("LineString", "MultiLineString")
+    for part in _parts(gj):
+        for p in part:
+            if frac(p[0]) / tb >= REGULAR_MAGNITUDE or frac(p[1]) / fb >= REGULAR_MAGNITUDE:
+                return "scaled coordinates >= 1e9"
+        if line:
+            for axis, buf in ((0, tb), (1, fb)):
+                xs = [frac(p[axis]) for p in part]
+                ext = max(xs) - min(xs)
+                if ext > 0 and buf / ext >= REGULAR_RATIO:
+                    return "buffer >= 1e4 x extent of a line part (C11-huge-buffer-ratio)"
+    if not line:
+        return RHO_POINT, KAPPA_ONE, KAPPA_ONE
+    if _has_reversal(gj):
+        return "line with an exact reversal (C11-line-reversal)"
+    return (RHO_LINE, KAPPA_ONE if _monotone(gj, 0) else KAPPA_MITRE, KAPPA_ONE if _monotone(gj, 1) else KAPPA_MITRE)
+
+
+def _raw_time_bounds(gj):
+    """smallest and largest time among the coordinates (no library code involved)"""
+    ty, c = gj["type"], gj["coordinates"]
+    if ty == "TimeStamp":
+        return frac(c), frac(c)
+    if ty == "TimeInterval":
+        return frac(c[0]), frac(c[1])
+    if ty == "BoundingBox":
+        return frac(c[0]), frac(c[2])
+
+    def times(x, depth):
+        if depth == 0:
+            yield frac(x[0])
+        else:
+            for y in x:
+                yield from times(y, depth - 1)
+    depth = {"Point": 0, "LineString": 1, "MultiPoint": 1, "Polygon": 2, "MultiLineString": 2, "MultiPolygon": 3}[ty]
+    ts = list(times(c, depth))
+    return min(ts), max(ts)
+
+
+def _outer_extent(gj, tb):
+    """a time extent that contains the prepared (buffered) geometry, from the coordinates: the hypothesis "does not
+    reach time 0" and "disjoint in time" are judged on it.  None: a regime in which nothing is claimed."""
+    s, e = _raw_time_bounds(gj)
+    tbq = frac(tb)
+    if gj["type"] == "TimeStamp":
+        return max(s - tbq, Fraction(0)), e + tbq, s - tbq
+    if gj["type"] not in GEOS_BUFFERED:
+        return s, e, s
+    kappa = KAPPA_ONE if _monotone(gj, 0) else KAPPA_MITRE
+    pad = kappa * tbq * (1 + TOL) + TOL
+    return max(s - pad, Fraction(0)), e + pad, s - pad
+
+
+def _time_band(ctx, g, h, tb, fb, vals):
+    """the band monitor for one buffered side `g` against a time-only side `h`: None / message"""
+    regime = _buffer_regime(g, tb, fb)
+    if isinstance(regime, str):
+        ctx.tally("time band: not evaluated: " + regime)
+        return None
+    rho, kt, _ = regime
+    v = _model("time_band", {"g": g, "h": h, "tb": tb, "fb": fb, "rho": rat(rho), "kappa": rat(kt), "tol": rat(TOL),
+                             "atol": rat(TOL), "vals": list(vals)})
+    if "raise" in v:
+        return None
+    ctx.tally("time band: evaluated (" + g["type"] + (", kappa 1)" if kt == 1 else ", mitre)"))
+    if v["ok"]:
+        return None
+    lo, hi = (float(frac(x)) for x in v["band"])
+    return (f"time-only: compute_affinity = {[float(frac(x)) for x in vals]!r} is not the IoU of the buffered time extents: "
+            f"{float(frac(v['ideal']))!r} for the ideal extent [max(s - tb, 0), e + tb] of the {g['type']}; admissible "
+            f"band for GEOS's polygonal buffer [{lo!r}, {hi!r}]")
+
+
+def _buffer_contracts(ctx, inp, info):
+    """the measured shape of every GEOS-buffered side against the pipeline contract (bounds and area from the
+    coordinates), in both branches"""
+    for gj, kd, ob in zip((inp["g1"], inp["g2"]), info["plan_kinds"], info["args"].get("obs") or (None, None)):
+        if kd != "buffered" or ob is None or "lo" not in ob:
+            continue
+        regime = _buffer_regime(gj, inp["tb"], inp["fb"])
+        if isinstance(regime, str):
+            ctx.tally("buffer contract: not evaluated: " + regime)
+            continue
+        rho, kt, kf = regime
+        v = _model("buffer_contract", {"g": gj, "tb": inp["tb"], "fb": inp["fb"], "rho": rat(rho), "rho_area": rat(RHO_LINE),
+                                       "kappa_t": rat(kt), "kappa_f": rat(kf), "tol": rat(TOL), **{k: ob[k] for k in ("st", "en", "lo", "hi", "area")}})
+        if "raise" in v:
+            continue
+        seen = {"g": gj, "tb": inp["tb"], "fb": inp["fb"], "obs": ob, "raw": v.get("raw")}
+        ctx.contract("buffered shape: time extent within [rho, kappa] buffers of the raw bounds", v["time"], inp, seen)
+        ctx.contract("buffered shape: frequency extent within [rho, kappa] buffers of the raw bounds", v["freq"], inp, seen)
+        ctx.contract("buffered shape: area between the rho-ellipse of a vertex and the outer rectangle / ellipse", v["area"], inp, seen)
 
 
 # ---------------------------------------------------------------- implementation side
@@ -182,7 +366,8 @@ def _measure(inp):
     base = {"g1": inp["g1"], "g2": inp["g2"], "tb": inp["tb"], "fb": inp["fb"]}
     plan = _model("plan", base)
     s = [plan["s1"], plan["s2"]]
-    info = {"plan": s, "args": dict(base), "closed": False, "branch": None, "shapes": [None, None]}
+    info = {"plan": s, "args": dict(base), "closed": False, "branch": None, "shapes": [None, None],
+            "plan_kinds": [None, None]}
     if "raise" in s[0] or "raise" in s[1]:
         info["branch"] = "error"
         _CACHE[k] = info
@@ -191,6 +376,7 @@ def _measure(inp):
     info["branch"] = "time" if time_branch else "area"
     grid = inp.get("mode", "grid") == "grid"
     kinds = [s[0]["kind"], s[1]["kind"]]
+    info["plan_kinds"] = kinds
     if time_branch:
         need = [kd in ("plain", "buffered") for kd in kinds]
         boxes_measured = False
@@ -229,7 +415,8 @@ def _measure(inp):
             obs.append(None)
         else:
             b = shp.bounds
-            obs.append({"area": rat(float(shp.area)), "st": rat(float(b[0])), "en": rat(float(b[2]))})
+            obs.append({"area": rat(float(shp.area)), "st": rat(float(b[0])), "en": rat(float(b[2])),
+                        "lo": rat(float(b[1])), "hi": rat(float(b[3]))})
     args = info["args"]
     args["obs"] = obs
     args["boxes_measured"] = boxes_measured
@@ -240,6 +427,14 @@ def _measure(inp):
             mb = _model("bounds", {"g": gj})
             bx.append((gj, ob, "val" in mb and frac(mb["val"][0]) == frac(ob["st"]) and frac(mb["val"][2]) == frac(ob["en"])))
     info["bounds_exact"] = bx
+    # contract AreaExact on the same sides: shapely's area of the converted (multi)polygon / box = shoelace area of the
+    # coordinates (geometry_to_shapely is code under test too; within 2^-40)
+    ax = []
+    for gj, kd, ob in zip((inp["g1"], inp["g2"]), kinds, obs):
+        if ob is not None and kd in ("plain", "box") and gj["type"] in ("Polygon", "MultiPolygon", "BoundingBox"):
+            ma = _model("area", {"g": gj})
+            ax.append((gj, ob, "val" in ma and tol_eq(frac(ma["val"]), float(frac(ob["area"])))))
+    info["area_exact"] = ax
     if inter is not None:
         args["inter"] = inter
         info["measured_pair"] = True
@@ -270,6 +465,15 @@ def _measure(inp):
         c = [frac(x) for x in inp["g1"]["coordinates"]]
         info["extent_pos"] = (c[2] - c[0]) * (c[3] - c[1]) > 0
     info["disjoint"] = ext[0][1] <= ext[1][0] or ext[1][1] <= ext[0][0]
+    # ... and independently of the library's buffer: a buffered point / line type has a positive extent, and two
+    # geometries whose outer extents (raw time bounds widened by kappa buffers) do not meet are disjoint in time
+    out = [_outer_extent(gj, inp["tb"]) if kd in ("buffered", "interval") and gj["type"] in LOW_DIM else None
+           for gj, kd in zip((inp["g1"], inp["g2"]), kinds)]
+    out = [o[:2] if o is not None else e for o, e in zip(out, ext)]
+    if out[0][1] <= out[1][0] or out[1][1] <= out[0][0]:
+        info["disjoint"] = True
+    if kinds[0] == "buffered" and not isinstance(_buffer_regime(inp["g1"], inp["tb"], inp["fb"]), str):
+        info["extent_pos"] = True
     _CACHE[k] = info
     return info
 
@@ -304,9 +508,23 @@ def _compare_shift(inp, io, mo):
         return None if a == mo else "implementation and model disagree (exception)"
     # the model's value for the unshifted pair is, by C06_shift_invariant, its value for the shifted pair
     for k, what in ((0, "original"), (1, "shifted")):
-        if not _num_eq(inp, mo["val"][0], io["val"][k]):
+        if k == 1 and not _measure(inp)["closed"]:
+            ok = abs(frac(mo["val"][0]) - frac(io["val"][1])) <= _shift_tol(inp)     # GEOS's noise grows with the offset
+        else:
+            ok = _num_eq(inp, mo["val"][0], io["val"][k])
+        if not ok:
             return f"compute_affinity on the {what} pair = {float(frac(io['val'][k]))!r}, model {float(frac(mo['val'][0]))!r}"
     return None
+
+
+def _shift_tol(inp):
+    """GEOS computes in absolute coordinates (for a buffered side: in the space scaled by 1 / time_buffer), so the noise
+    of its overlay grows with their magnitude M: observed up to 0.15 * 2^-40 * M at sharp mitre joins (thorough tier,
+    follow-up 2); the tolerance is 2^-37 relative to M"""
+    info = _measure(inp)
+    tmax = max(_raw_time_bounds(g)[1] for g in (inp["g1"], inp["g2"])) + max(frac(inp["d"]), Fraction(0))
+    scaled = any(kd == "buffered" for kd in info["plan_kinds"]) and 0 < frac(inp["tb"]) < 1
+    return 8 * TOL * max(Fraction(1), tmax / frac(inp["tb"]) if scaled else tmax)
 
 
 # ---------------------------------------------------------------- monitors
@@ -343,9 +561,21 @@ def _holds_pair(ctx, inp, io):
         ctx.tally("shapely could not measure the prepared geometry although compute_affinity returned")
     for gj, ob, ok in info.get("bounds_exact", ()):
         ctx.contract("BoundsExact: shapely bounds = min / max of the coordinates (exact)", ok, inp, {"g": gj, "obs": ob})
+    for gj, ob, ok in info.get("area_exact", ()):
+        ctx.contract("AreaExact: shapely area of the converted geometry = shoelace area of the coordinates (within 2^-40)",
+                     ok, inp, {"g": gj, "obs": ob})
     _contracts(ctx, inp, info)
+    _buffer_contracts(ctx, inp, info)
     a12, a21 = io["val"]
     same = inp["g1"] == inp["g2"]
+    if info["branch"] == "time" and "buffered" in info["plan_kinds"]:
+        # the clause "whenever either geometry is time-only it equals the IoU of the (buffered) time extents", with
+        # the buffered extent of the point / line side taken from its coordinates, not from the library's buffer
+        kb = info["plan_kinds"].index("buffered")
+        g, h = (inp["g1"], inp["g2"]) if kb == 0 else (inp["g2"], inp["g1"])
+        msg = _time_band(ctx, g, h, inp["tb"], inp["fb"], [a12, a21])
+        if msg:
+            return msg
     v = ctx.model("judge", {"a12": a12, "a21": a21, "same": same, "extent_pos": bool(info["extent_pos"]),
                             "disjoint": bool(info["disjoint"])})
     ctx.tally("branch:" + info["branch"] + (":closed" if info["closed"] else ":measured"))
@@ -386,16 +616,25 @@ def _holds_shift(ctx, inp, io):
         return "compute_affinity raised " + str(io["raise"])
     a, b = frac(io["val"][0]), frac(io["val"][1])
     info = _measure(inp)
-    # the hypothesis "neither buffered geometry reaches time 0", on the measured / closed-form extents
-    lo = min(e[0] for e in info["extent"])
+    # the hypothesis "neither buffered geometry reaches time 0", on extents taken from the coordinates (raw time
+    # bounds less kappa buffers for a buffered type) and, as before, on the measured / closed-form ones
+    lo = min([e[0] for e in info["extent"]] + [_outer_extent(g, inp["tb"])[2] for g in (inp["g1"], inp["g2"])])
     if lo <= 0 or lo + frac(inp["d"]) <= 0:
         ctx.tally("shift: hypothesis not met (buffered geometry reaches time 0)")
         return None
     ctx.tally("shift:" + info["branch"] + (":closed" if info["closed"] else ":measured"))
+    if info["branch"] == "time" and "buffered" in info["plan_kinds"]:
+        kb = info["plan_kinds"].index("buffered")
+        g, h = (inp["g1"], inp["g2"]) if kb == 0 else (inp["g2"], inp["g1"])
+        for what, gg, hh, val in (("original", g, h, io["val"][0]),
+                                  ("shifted", _shift_geom(g, inp["d"]), _shift_geom(h, inp["d"]), io["val"][1])):
+            msg = _time_band(ctx, gg, hh, inp["tb"], inp["fb"], [val])
+            if msg:
+                return f"{what} pair (offset {inp['d']} s): " + msg
     if info["closed"]:
         ok = a == b
     else:
-        ok = abs(a - b) <= TOL
+        ok = abs(a - b) <= _shift_tol(inp)
     if not ok:
         return f"shift: affinity {float(a)!r} becomes {float(b)!r} after shifting both geometries by {inp['d']} s"
     return None
@@ -894,11 +1133,16 @@ def _shift_cases(rng, reps):
         for t2 in gen_geom.TYPES:
             for _ in range(reps):
                 # keep the buffered geometries away from time 0 before and after the shift
-                # (mitre joins of a buffered line can reach 5 buffers beyond its end)
-                g1 = _valid(rng, t1, tmin=8, tmax=12, fmax=4, k=2)
-                g2 = _valid(rng, t2, tmin=8, tmax=12, fmax=4, k=2)
-                tb, fb = rng.choice([("1/4", "1/2"), ("1/2", "1"), ("1", "1/2")])
-                d = rng.choice(["1", "1/4", "8", "-1/2", "-1", "17/8", "100"])
+                # (mitre joins of a buffered line can reach 5 buffers beyond its end); time buffers above one
+                # second too (scale factor of the shapely pipeline below 1), and now and then late events
+                tb, fb = rng.choice([("1/4", "1/2"), ("1/2", "1"), ("1", "1/2"), ("3/2", "1/2"), ("2", "1"), ("4", "2"),
+                                     ("5/2", "4")])
+                t0 = 8 if frac(tb) <= 1 else 24
+                if rng.random() < 0.2:
+                    t0 = rng.choice([60, 250, 1000])
+                g1 = _valid(rng, t1, tmin=t0, tmax=t0 + 4, fmax=4, k=2)
+                g2 = _valid(rng, t2, tmin=t0, tmax=t0 + 4, fmax=4, k=2)
+                d = rng.choice(["1", "1/4", "8", "-1/2", "-1", "17/8", "100", "-3", "1000"])
                 yield {"g1": g1, "g2": g2, "tb": tb, "fb": fb, "d": d, "mode": "grid"}
 
 
